@@ -13,11 +13,11 @@ import (
 )
 
 var tagRows = map[string]string{
-	"total":     "no tag text makes the parser, the argument lookups or the required test panic",
-	"value":     "the value part is the text before the first top-level comma (commas inside brackets do not count), unchanged",
-	"arguments": "every following segment name=v1 v2 yields the argument name with the space-separated items as values; bracketed groups are never split; a segment without '=' yields one empty value; an empty name is ignored",
-	"lookup":    "an argument is found (Find, Has) under its name with either case of the first letter, and only under those",
-	"required":  "the point is optional exactly when the tag carries required=false",
+	"total":      "no tag text makes the parser, the argument lookups or the required test panic",
+	"value":      "the value part is the text before the first top-level comma (commas inside brackets do not count), unchanged",
+	"arguments":  "every following segment name=v1 v2 yields the argument name with the space-separated items as values; bracketed groups are never split; a segment without '=' yields one empty value; an empty name is ignored",
+	"lookup":     "an argument is found (Find, Has) under its name with either case of the first letter, and only under those",
+	"required":   "the point is optional exactly when the tag carries required=false",
 	"has-values": "Has(name, wanted...) holds exactly when one of the wanted texts equals one of the argument's values, byte for byte",
 }
 
